@@ -160,18 +160,28 @@ type changeIterator[Obj any] struct {
 	table          Table[Obj]
 	revision       Revision
 	deleteRevision Revision
+	baseRevision   Revision // table revision when the iterator was created
 	dt             *deleteTracker[Obj]
 	iter           *dualIterator[Obj]
 	watch          <-chan struct{}
 }
 
-func (it *changeIterator[Obj]) refresh(txn ReadTxn) {
+func (it *changeIterator[Obj]) refresh(txn ReadTxn) (stale bool) {
 	tableEntry := txn.committedRoot()[it.table.tablePos()]
 	if it.iter != nil && tableEntry.locked {
 		var obj Obj
 		panic(fmt.Sprintf("Table[%T].Changes().Next() called with the target table locked. This is not supported.", obj))
 	}
 	indexEntry := tableEntry.indexes[RevisionIndexPos]
+	if tableEntry.revision < it.baseRevision {
+		// The snapshot predates the creation of the iterator (the write
+		// transaction that created it is not committed yet). It may hold objects
+		// whose deletion this iterator is never going to see, so deliver nothing
+		// from it and wait for a newer snapshot.
+		it.iter = nil
+		it.watch = indexEntry.rootWatch()
+		return true
+	}
 	updated, _ := indexEntry.lowerBoundNext(index.Uint64(it.revision + 1))
 	updateIter := &iterator[Obj]{updated}
 	deleteIter := it.dt.deleted(txn, it.deleteRevision+1)
@@ -181,6 +191,7 @@ func (it *changeIterator[Obj]) refresh(txn ReadTxn) {
 	// any object that is inserted into the graveyard will be deleted from
 	// the revision index.
 	it.watch = indexEntry.rootWatch()
+	return false
 }
 
 func (it *changeIterator[Obj]) Next(txn ReadTxn) (seq iter.Seq2[Change[Obj], Revision], watch <-chan struct{}) {
@@ -205,7 +216,11 @@ func (it *changeIterator[Obj]) Next(txn ReadTxn) (seq iter.Seq2[Change[Obj], Rev
 	// Next() call to get a proper watch channel, but it does make this
 	// API much safer to use even when only partially consuming the
 	// sequence.
-	it.refresh(txn)
+	if it.refresh(txn) {
+		watch = it.watch
+		seq = func(yield func(Change[Obj], Revision) bool) {}
+		return
+	}
 	watch = closedWatchChannel
 	seq = func(yield func(Change[Obj], Revision) bool) {
 		if it.iter == nil {
